@@ -543,7 +543,8 @@ def stepLine (d : D) (ws : List String) : D × List String :=
       ({ d with started := true,
                 cfg := { uriLog := d.uriLog, allowSuspend := d.suspend, epoll := d.mode == "epoll",
                          f9Fixed := f9Fixed, allocBypassFixed := allocBypassFixed,
-                         epollBypassFixed := epollBypassFixed, f14Fixed := f14Fixed } }, ["started"])
+                         epollBypassFixed := epollBypassFixed, f14Fixed := f14Fixed,
+                         f14ClearsAware := f14ClearsAware } }, ["started"])
   | "resp" :: rid :: kvs =>
       match rid.toNat? with
       | none => (d, ["bad-op"])
